@@ -532,6 +532,13 @@ def run_h8_h10(chk, repo):
         r_ = repo.resolve(hm, nm) if isinstance(imp, tuple) and imp[0] == 'attr' and str(imp[1]).startswith('pharmpy.internals') else None
         if r_ and r_[0] == 'func':
             scope_fns.append(r_[1])
+    # and the helpers of their own module that they call (two levels)
+    for _round in range(2):
+        for f_ in list(scope_fns):
+            for c in calls_in(f_.node):
+                g_ = dict.get(f_.module.functions, dotted(c.func) or '')
+                if g_ is not None and g_ not in scope_fns:
+                    scope_fns.append(g_)
     raw = [(f_, c) for f_ in scope_fns for c in calls_in(f_.node) if isinstance(c.func, ast.Attribute)
            and c.func.attr in ('tobytes', 'tostring') and any(
                isinstance(u, ast.Call) and isinstance(u.func, ast.Attribute) and u.func.attr == 'update'
